@@ -711,6 +711,8 @@ def shrink(exe, problem, hseed, lines, tags, budget=60):
 def replay_run(chk, exe, rp):
     """re-run the request lines of a replay file and re-apply the freshness oracle"""
     r = rp["replay"]
+    if r.get("mode") in ("pair", "free"):
+        return replay_threads(chk, r)
     if "lines" not in r:
         return replay_pair(chk, exe, r)
     s = Session(exe, r["problem"], r["harness_seed"])
@@ -773,7 +775,108 @@ def replay_pair(chk, exe, r):
         s.close()
 
 
+# ---------------------------------------------------------------------------------------------
+# concurrent signature computations (harness/c03_threads.cc)
+# ---------------------------------------------------------------------------------------------
+def parse_fail(line):
+    """`FAIL handshake k=3 | A <content> | B <content> | expectedA … | gotA …` -> dict"""
+    parts = [p.strip() for p in line.split(" | ")]
+    d = {"head": parts[0]}
+    for p in parts[1:]:
+        k, _, v = p.partition(" ")
+        d[k] = v
+    for t in parts[0].split():
+        if t.startswith("k="):
+            d["k"] = int(t[2:])
+    return d
+
+
+def threads_violation(chk, what, replay, kind):
+    tags = {"kind": kind, "cls": "i_mep", "op": "signature"}
+    replay = dict(replay)
+    replay["tags"] = tags
+    chk.violation(what, replay, tags=tags)
+
+
+def run_threads(chk, quick):
+    """deterministic interleavings at the scheduling points of pack (ASan build), then free running
+    threads under ASan and under TSan.  Returns the list of things that could not be run."""
+    problems = []
+    seed = chk.seed
+    exe = C.build_harness("c03_threads", "asan")
+    trials = 300 if quick else 6000
+    rc, so, se = C.run_harness(exe, ["handshake", seed, trials], timeout=900)
+    fails = [l for l in so.splitlines() if l.startswith("FAIL")]
+    if fails:
+        d = parse_fail(fails[0])
+        if "B" in d:
+            threads_violation(
+                chk, "two threads computing signatures of DIFFERENT individuals interfere: thread A is at scheduling "
+                "point %s of its pack() while thread B computes a whole signature; A obtains %s instead of %s, B obtains "
+                "%s (single-threaded: %s).  A = `%s`, B = `%s`" % (d.get("k"), d.get("gotA"), d.get("expectedA"),
+                                                                  d.get("gotB"), d.get("expectedB"),
+                                                                  d.get("A", "")[:300], d.get("B", "")[:300]),
+                {"mode": "pair", "k": d.get("k", -1), "a": d.get("A"), "b": d.get("B")}, "thread-interference")
+        else:
+            threads_violation(chk, "signature() of a copy differs between two calls on one thread: " + fails[0][:400],
+                              {"mode": "pair", "k": -1, "a": d.get("A"), "b": d.get("A")}, "thread-interference")
+    elif rc != 0:
+        threads_violation(chk, "harness c03_threads handshake died rc=%s: %s" % (rc, (so + se)[-1500:]),
+                          {"mode": "free", "cfg": "asan", "args": ["handshake", seed, trials]}, "died")
+    else:
+        for t in so.split():
+            if t.startswith("interleavings="):
+                chk.count("threads:deterministic_interleavings", int(t.split("=")[1]))
+            if t.startswith("trials_with_points="):
+                chk.count("threads:pairs_with_scheduling_points", int(t.split("=")[1]))
+        chk.seen(("threads", "handshake", so.strip()))
+    # free running threads: any data race (TSan) / memory error (ASan) / wrong value
+    for cfg, nthr, iters in (("asan", 4, 1500 if quick else 40000), ("tsan", 2, 2000 if quick else 60000),
+                             ("tsan", 4, 1000 if quick else 30000)):
+        try:
+            ex = C.build_harness("c03_threads", cfg)
+        except RuntimeError as e:
+            problems.append("c03_threads (%s) does not build: %s" % (cfg, str(e)[-600:]))
+            continue
+        args = ["free", seed, nthr, iters]
+        rc, so, se = C.run_harness(ex, args, timeout=1500)
+        chk.count("threads:free_runs_%s" % cfg)
+        if rc == 0 and so.startswith("ok"):
+            chk.count("threads:free_signatures_%s" % cfg, int(so.split("signatures=")[1].split()[0]))
+            chk.seen(("threads", cfg, nthr, so.strip()))
+            continue
+        race = "ThreadSanitizer: data race" in se
+        loc = ""
+        for ln in se.splitlines():
+            if "vita::" in ln and "#" in ln:
+                loc = ln.strip()
+                break
+        fl = [l for l in so.splitlines() if l.startswith("FAIL")]
+        what = ("%d threads computing signatures of their OWN individuals (%s build): " % (nthr, cfg)) + \
+            ("data race reported by ThreadSanitizer at %s" % loc if race else
+             (fl[0][:500] if fl else "the process died rc=%s: %s" % (rc, se[-800:])))
+        threads_violation(chk, what, {"mode": "free", "cfg": cfg, "args": args}, "thread-interference")
+        break
+    return problems
+
+
+def replay_threads(chk, r):
+    if r["mode"] == "pair":
+        exe = C.build_harness("c03_threads", "asan")
+        rc, so, se = C.run_harness(exe, ["pair", r.get("k", -1)], inp="%s\n%s\n" % (r["a"], r["b"]))
+        if rc != 0 or not so.startswith("ok"):
+            chk.violation("replay: interleaved signature computations interfere: " + (so + se)[:800], r,
+                          tags=r.get("tags", {}))
+        return
+    exe = C.build_harness("c03_threads", r.get("cfg", "tsan"))
+    rc, so, se = C.run_harness(exe, r["args"], timeout=1500)
+    if rc != 0 or not so.startswith("ok"):
+        chk.violation("replay: concurrent signature computations (%s): rc=%s %s" % (r.get("cfg"), rc, (so + se)[:800]),
+                      r, tags=r.get("tags", {}))
+
+
 def run(chk, replay=None):
+    C.NPROC = min(C.NPROC, 6)          # shared machine: at most 6 compile jobs
     rng = C.SplitMix(chk.seed)
     broken = []
     quick = chk.tier == "quick"
@@ -788,13 +891,25 @@ def run(chk, replay=None):
     except Exception as e:  # Refuse or clang failure
         broken.append("translator tools/translate_mutators.py refuses the current sources: %s" % (e,))
 
+    sp_info = None
+    try:
+        import translate_sigpath
+        sp_info = translate_sigpath.emit(os.path.join(C.LEAN, "Vita", "C03", "GenSigPath.lean"))
+        chk.cov["sigpath_functions"] = len(sp_info["functions"])
+        chk.cov["sigpath_globals"] = ["%s: %s (%s%s%s)" % (f, v, st, ", thread_local" if tls else "", ", const" if c else "")
+                                      for f, v, st, tls, c in sp_info["globals"]]
+        chk.cov["sigpath_externals"] = sp_info["externals"]
+        chk.cov["gen_sigpath_changed_vs_committed"] = bool(sp_info["changed"])
+    except Exception as e:
+        broken.append("translator tools/translate_sigpath.py refuses the current sources: %s" % (e,))
+
     # ---- proofs --------------------------------------------------------------------------------
     drv_ok, out = C.lake_build(["c03_driver"])
     if not drv_ok:
         broken.append("driver does not build: " + C.lean_errors(out))
-    if gen_info is not None:
+    if gen_info is not None and sp_info is not None:
         ok, msg = chk.prove("Vita.C03.Props", ["Vita.C03.Props"],
-                            extra_obligations=len(gen_info["methods"]))
+                            extra_obligations=len(gen_info["methods"]) + len(sp_info["functions"]))
         if not ok:
             broken.append("theorems of Vita.C03.Props no longer check: " + msg)
 
@@ -811,6 +926,9 @@ def run(chk, replay=None):
             if f.endswith(".json"):
                 replay_run(chk, exe, {"replay": json.load(open(os.path.join(cdir, f)))})
                 chk.count("corpus_files")
+
+    # ---- concurrent signature computations -----------------------------------------------------
+    broken += run_threads(chk, quick)
 
     # ---- generated sessions -----------------------------------------------------------------------
     streams = {}        # packed stream -> (fresh signature, content)
@@ -908,4 +1026,6 @@ def finish(chk, broken):
              "distinct (problem, content, operation) triples; factorisation over all distinct contents observed",
         trusted=["Lean 4.33 kernel", "tools/translate_mutators.py (clang-14 JSON AST -> effect skeletons)",
                  "harness/c03_sig.cc (serialisation through the public const interface, load() as from-scratch builder)",
+                 "tools/translate_sigpath.py (call-graph closure of signature() in the clang AST; std:: callees by name)",
+                 "harness/c03_threads.cc, ThreadSanitizer",
                  "g++ 12.2 ASan/UBSan"])
